@@ -971,8 +971,7 @@ class RealBackend(object):
 
     def post_sync(self, inst, val, err):
         self.ev("sync_ret", inst.token, repr(val) if err is None else ("E", errtok(err)))
-        if not (isinstance(err, RuntimeError) and "exceeded maximum threshold" in str(err)):
-            self._check_active(inst, "after-sync")
+        self._check_active(inst, "after-sync")
         self._read(inst)
         if "C06" in self.mon and self.live_ctx:
             self._ctx_monitor(inst)
